@@ -164,25 +164,27 @@ Theorem C11_hard_sparsity_end_to_end : forall (P : Type) (truthy : P -> bool) (t
 Proof. exact @cp_hard_sparsity. Qed.
 Print Assumptions C11_hard_sparsity_end_to_end.
 
-(* the factor is the transpose of a list of columns that are >= 0 and sum to the parameter (parameter > 0) *)
+(* the factor is the transpose of a RECTANGULAR list Z of columns (each as long as the factor has rows, so cols_of neither pads
+   nor truncates: entry (i,j) of the factor is entry i of column j) that are >= 0 and sum to the parameter (parameter > 0) *)
 Theorem C11_simplex_end_to_end : forall (P : Type) (truthy : P -> bool) (toR : P -> R) (toN : P -> nat)
   (other : kind -> P -> mat -> mat) (dM : mat) (msub madd : mat -> mat -> mat) (n : nat) (sp : list (kind * @zspec P))
   (E : env (M := mat)) (i0 : init (M := mat)) (fixed : list nat) (n_outer n_inner : nat) (zero : mat) (fs : list mat) (m : nat),
   constrained_cp dM (op_c12 toR toN other) (zvalidate truthy n sp) msub madd E n i0 fixed n_outer n_inner zero = Ok fs ->
   m < length fs -> init_computed i0 = true \/ (In m (modes_list n fixed) /\ 0 < n_outer) ->
   forall (s : @zspec P) (p : P), In (KSimplex, s) sp -> zrequested truthy n s m p -> (0 < toR p)%R ->
-  exists Z, nth m fs dM = cols_of Rops Z /\ Forall (fun z => Forall (fun a : R => (0 <= a)%R) z /\ lsum Rops z = toR p) Z.
+  exists Z, nth m fs dM = cols_of Rops Z /\ Forall (fun z => length z = length (nth m fs dM)) Z /\
+            Forall (fun z => Forall (fun a : R => (0 <= a)%R) z /\ lsum Rops z = toR p) Z.
 Proof. exact @cp_simplex. Qed.
 Print Assumptions C11_simplex_end_to_end.
 
-(* the factor is the transpose of a list of non-decreasing columns *)
+(* the factor is the transpose of a rectangular list of non-decreasing columns *)
 Theorem C11_monotonicity_end_to_end : forall (P : Type) (truthy : P -> bool) (toR : P -> R) (toN : P -> nat)
   (other : kind -> P -> mat -> mat) (dM : mat) (msub madd : mat -> mat -> mat) (n : nat) (sp : list (kind * @zspec P))
   (E : env (M := mat)) (i0 : init (M := mat)) (fixed : list nat) (n_outer n_inner : nat) (zero : mat) (fs : list mat) (m : nat),
   constrained_cp dM (op_c12 toR toN other) (zvalidate truthy n sp) msub madd E n i0 fixed n_outer n_inner zero = Ok fs ->
   m < length fs -> init_computed i0 = true \/ (In m (modes_list n fixed) /\ 0 < n_outer) ->
   forall (s : @zspec P) (p : P), In (KMonotone, s) sp -> zrequested truthy n s m p ->
-  exists Z, nth m fs dM = cols_of Rops Z /\ Forall ndec Z.
+  exists Z, nth m fs dM = cols_of Rops Z /\ Forall (fun z => length z = length (nth m fs dM)) Z /\ Forall ndec Z.
 Proof. exact @cp_monotone. Qed.
 Print Assumptions C11_monotonicity_end_to_end.
 
@@ -195,7 +197,8 @@ Theorem C11_soft_sparsity_end_to_end : forall (P : Type) (truthy : P -> bool) (t
   constrained_cp dM (op_c12 toR toN other) (zvalidate truthy n sp) msub madd E n i0 fixed n_outer n_inner zero = Ok fs ->
   m < length fs -> init_computed i0 = true \/ (In m (modes_list n fixed) /\ 0 < n_outer) ->
   forall (s : @zspec P) (p : P), In (KSoftSparsity, s) sp -> zrequested truthy n s m p -> (0 < toR p)%R ->
-  exists Z, nth m fs dM = cols_of Rops Z /\ Forall (fun z => (l1n Rops z <= toR p)%R) Z.
+  exists Z, nth m fs dM = cols_of Rops Z /\ Forall (fun z => length z = length (nth m fs dM)) Z /\
+            Forall (fun z => (l1n Rops z <= toR p)%R) Z.
 Proof. exact @cp_soft_sparsity. Qed.
 Print Assumptions C11_soft_sparsity_end_to_end.
 
@@ -246,25 +249,52 @@ Theorem C11_success_implies_no_double : forall (P : Type) (truthy : P -> bool) (
 Proof. exact @zcp_ok_no_double. Qed.
 Print Assumptions C11_success_implies_no_double.
 
-(* conversely a request that validate_constraints accepts is never rejected by the decomposition (order >= 1, inner budget
-   >= 1, at most n initial factors), whatever the environment ... *)
+(* conversely a request that validate_constraints accepts is not rejected by the decomposition when: order >= 1, inner budget
+   >= 1, exactly n initial factors, and - unless the outer budget is 0 - the last mode is updated (C11_last_mode_updated: always
+   when fixed_modes has no repeated entry), whatever the environment ... *)
 Theorem C11_valid_request_returns : forall (P : Type) (truthy : P -> bool) (M : Type) (dM : M)
   (op : kind -> P -> M -> M) (msub madd : M -> M -> M) (n : nat) (sp : list (kind * @zspec P)) (tab : @table P)
   (E : env (M := M)) (i0 : init (M := M)) (fixed : list nat) (n_outer n_inner : nat) (zero : M),
-  zvalidate_table truthy n sp = Ok tab -> 0 < n -> 0 < n_inner -> length (init_factors i0) <= n ->
+  zvalidate_table truthy n sp = Ok tab -> 0 < n -> 0 < n_inner -> length (init_factors i0) = n ->
+  n_outer = 0 \/ In (n - 1) (modes_list n fixed) ->
   exists fs, constrained_cp dM op (zvalidate truthy n sp) msub madd E n i0 fixed n_outer n_inner zero = Ok fs.
 Proof. exact @zcp_valid_request_returns. Qed.
 Print Assumptions C11_valid_request_returns.
 
-(* ... so the decomposition raises exactly on the requests that put two constraints on one mode / address no existing mode *)
+(* ... so, under these side conditions, the decomposition raises exactly on the requests that put two constraints on one mode /
+   address no existing mode.  The raises OUTSIDE the side conditions are not validation errors (next three theorems). *)
 Theorem C11_decomposition_rejects_iff : forall (P : Type) (truthy : P -> bool) (M : Type) (dM : M)
   (op : kind -> P -> M -> M) (msub madd : M -> M -> M) (n : nat) (sp : list (kind * @zspec P)) (E : env (M := M))
   (i0 : init (M := M)) (fixed : list nat) (n_outer n_inner : nat) (zero : M),
-  zwf_specs sp -> 0 < n -> 0 < n_inner -> length (init_factors i0) <= n ->
+  zwf_specs sp -> 0 < n -> 0 < n_inner -> length (init_factors i0) = n -> n_outer = 0 \/ In (n - 1) (modes_list n fixed) ->
   (constrained_cp dM op (zvalidate truthy n sp) msub madd E n i0 fixed n_outer n_inner zero = Err <->
    zdouble truthy n sp \/ zself_alias n sp \/ zno_mode truthy n sp).
 Proof. exact @zcp_err_iff. Qed.
 Print Assumptions C11_decomposition_rejects_iff.
+
+Theorem C11_last_mode_updated : forall (n : nat) (fixed : list nat),
+  NoDup fixed -> 0 < n -> In (n - 1) (modes_list n fixed).
+Proof. exact @modes_list_has_last. Qed.
+Print Assumptions C11_last_mode_updated.
+
+(* fixed_modes lists the last mode twice and every other mode (e.g. [0;1;2;2] on order 3): `remove` drops one occurrence, no
+   mode is updated and the error computation reads an unbound `mttkrp` - the code raises UnboundLocalError, whatever the request *)
+Theorem C11_no_mode_updated_raises : forall (P M : Type) (dM : M) (op : kind -> P -> M -> M) (msub madd : M -> M -> M)
+  (val : nat -> res (option (kind * P))) (n : nat) (E : env (M := M)) (i0 : init (M := M)) (fixed : list nat)
+  (n_outer n_inner : nat) (zero : M),
+  modes_list n fixed = [] -> 0 < n_outer ->
+  constrained_cp dM op val msub madd E n i0 fixed n_outer n_inner zero = Err.
+Proof. exact @cp_no_mode_updated. Qed.
+Print Assumptions C11_no_mode_updated_raises.
+
+(* a user CP tensor whose number of factors is not the order raises as soon as a sweep is executed (shapes not aligned) *)
+Theorem C11_wrong_factor_count_raises : forall (P M : Type) (dM : M) (op : kind -> P -> M -> M) (msub madd : M -> M -> M)
+  (val : nat -> res (option (kind * P))) (n : nat) (E : env (M := M)) (ufs : list M) (fixed : list nat)
+  (n_outer n_inner : nat) (zero : M),
+  length ufs <> n -> 0 < n_outer ->
+  constrained_cp dM op val msub madd E n (IUser ufs) fixed n_outer n_inner zero = Err.
+Proof. exact @cp_wrong_factor_count. Qed.
+Print Assumptions C11_wrong_factor_count_raises.
 
 (* modes that are updated: every mode not listed as fixed (the last one is never fixed) *)
 Theorem C11_free_modes_updated : forall (n : nat) (fixed : list nat) (m : nat),
@@ -327,19 +357,63 @@ Proof. repeat split; vm_compute; reflexivity. Qed.
 Example C11_nonvacuous_skeleton :
   let truthy := fun p : nat => negb (Nat.eqb p 0) in
   let sp := zkeywords (fun k => match k with KNonNeg => ZDict [(1%Z, 1)] | _ => ZNone end) in
-  let E := mkEnv (fun _ _ _ _ => 0) (fun _ _ _ _ _ _ => false) (fun _ _ _ => false) in
+  let E := mkEnv (fun _ _ _ _ => 0) (fun _ _ _ _ _ _ => false) (fun _ _ _ => false) (fun _ _ => true) in
   constrained_cp 0 (fun _ p _ => 100 + p) (zvalidate truthy 3 sp) (fun _ _ => 0) (fun _ _ => 0) E 3 (IUser [7; 8; 9]) [0] 2 1 0
   = Ok [7; 101; 0].
 Proof. vm_compute. reflexivity. Qed.
 
-(* non-vacuity of the end-to-end theorems: with the C12 operators a run exists for hard_sparsity = 2 on mode 1 (by list) and
-   non_negative on mode 0 (by key -3), order 3, any environment, budgets (2, 1) *)
+(* non-vacuity of the end-to-end theorems: with the C12 operators a run exists from 2 x 2 real factors for non_negative on mode 0
+   (by key -3) and hard_sparsity = 2 on mode 1 (by list), order 3, any environment, budgets (2, 1); the hypotheses of
+   C11_non_negative_end_to_end / C11_hard_sparsity_end_to_end are then jointly satisfied and their conclusions hold of that run *)
 Example C11_end_to_end_nonvacuous : forall (other : kind -> nat -> mat -> mat) (E : env (M := mat)),
   let truthy := fun p : nat => negb (Nat.eqb p 0) in
   let sp := zkeywords (fun k => match k with KNonNeg => ZDict [((-3)%Z, 1)] | KHardSparsity => ZList [None; Some 2] | _ => ZNone end) in
+  let A : mat := [[1; -2]; [3; 4]]%R in
   exists fs, constrained_cp [] (op_c12 INR (fun p => p) other) (zvalidate truthy 3 sp) (fun a _ => a) (fun a _ => a) E 3
-                            (IComputed [[]; []; []]) [] 2 1 [] = Ok fs.
+                            (IComputed [A; A; A]) [] 2 1 [] = Ok fs /\
+             Forall (fun a : R => (0 <= a)%R) (concat (nth 0 fs [])) /\ nnzR (concat (nth 1 fs [])) <= 2.
 Proof.
   intros other E. cbv zeta.
-  eapply (@zcp_valid_request_returns nat _ mat) with (tab := [Some (KNonNeg, 1); Some (KHardSparsity, 2); None]); auto; simpl; auto.
+  set (sp := zkeywords (fun k => match k with KNonNeg => ZDict [((-3)%Z, 1)] | KHardSparsity => ZList [None; Some 2] | _ => ZNone end)).
+  set (truthy := fun p : nat => negb (Nat.eqb p 0)).
+  assert (T : zvalidate_table truthy 3 sp = Ok [Some (KNonNeg, 1); Some (KHardSparsity, 2); None]) by (vm_compute; reflexivity).
+  destruct (@zcp_valid_request_returns nat truthy mat [] (op_c12 INR (fun p => p) other) (fun a _ => a) (fun a _ => a) 3 sp _ E
+              (IComputed [[[1; -2]; [3; 4]]; [[1; -2]; [3; 4]]; [[1; -2]; [3; 4]]]%R) [] 2 1 [] T) as (fs & Hrun); auto.
+  { right. vm_compute. auto. }
+  exists fs. split; [exact Hrun|].
+  pose proof (cp_skeleton _ _ _ _ _ _ _ _ _ _ _ _ _ Hrun) as (L & _). simpl in L.
+  split.
+  - eapply (@cp_nonneg nat truthy INR (fun p => p) other) with (m := 0) (p := 1) (s := ZDict [((-3)%Z, 1)]); eauto; try (rewrite L; auto).
+    + apply zkeywords_In. reflexivity.
+    + simpl. exists (-3)%Z. split; [left; reflexivity|]. right. split; reflexivity.
+  - eapply (@cp_hard_sparsity nat truthy INR (fun p => p) other) with (m := 1) (p := 2) (s := ZList [None; Some 2]); eauto; try (rewrite L; auto).
+    + apply zkeywords_In. reflexivity.
+    + simpl. auto.
 Qed.
+
+(* the scope limit of the property's headline clause, as an example (C11_skeleton, third clause): a user-supplied initial CP
+   tensor is NOT passed through the operators; with outer budget 0 (or on a fixed mode) the user's factor comes back as it is,
+   feasible or not.  Factors are tags: operator outputs are >= 100, the user's factors are 7, 8, 9; non_negative is requested on
+   every mode.  (In the code the weights of the user's CP tensor are first multiplied into its last factor; IUser is the list
+   after that absorption.) *)
+Example C11_user_init_zero_budget_not_projected :
+  let truthy := fun p : nat => negb (Nat.eqb p 0) in
+  let sp := zkeywords (fun k => match k with KNonNeg => ZScalar 1 | _ => ZNone end) in
+  let E := mkEnv (fun _ _ _ _ => 0) (fun _ _ _ _ _ _ => false) (fun _ _ _ => false) (fun _ _ => true) in
+  constrained_cp 0 (fun _ p _ => 100 + p) (zvalidate truthy 3 sp) (fun _ _ => 0) (fun _ _ => 0) E 3 (IUser [7; 8; 9]) [] 0 1 0
+  = Ok [7; 8; 9] /\
+  constrained_cp 0 (fun _ p _ => 100 + p) (zvalidate truthy 3 sp) (fun _ _ => 0) (fun _ _ => 0) E 3 (IUser [7; 8; 9]) [0] 1 1 0
+  = Ok [7; 101; 101].
+Proof. split; vm_compute; reflexivity. Qed.
+
+(* the two raises that are not validation errors, on tags: fixed_modes = [0;1;2;2] / a user CP tensor with two factors, order 3 *)
+Example C11_corner_raises :
+  let truthy := fun p : nat => negb (Nat.eqb p 0) in
+  let sp := zkeywords (fun k => match k with KNonNeg => ZScalar 1 | _ => ZNone end) in
+  let E := mkEnv (fun _ _ _ _ => 0) (fun _ _ _ _ _ _ => false) (fun _ _ _ => false) (fun _ _ => true) in
+  modes_list 3 [0; 1; 2; 2] = [] /\
+  constrained_cp 0 (fun _ p _ => 100 + p) (zvalidate truthy 3 sp) (fun _ _ => 0) (fun _ _ => 0) E 3 (IUser [7; 8; 9]) [0; 1; 2; 2] 1 1 0 = Err /\
+  constrained_cp 0 (fun _ p _ => 100 + p) (zvalidate truthy 3 sp) (fun _ _ => 0) (fun _ _ => 0) E 3 (IUser [7; 8; 9]) [0; 1; 2; 2] 0 1 0 = Ok [7; 8; 9] /\
+  constrained_cp 0 (fun _ p _ => 100 + p) (zvalidate truthy 3 sp) (fun _ _ => 0) (fun _ _ => 0) E 3 (IUser [7; 8]) [] 1 1 0 = Err /\
+  constrained_cp 0 (fun _ p _ => 100 + p) (zvalidate truthy 3 sp) (fun _ _ => 0) (fun _ _ => 0) E 3 (IUser [7; 8]) [] 0 1 0 = Ok [7; 8].
+Proof. repeat split; vm_compute; reflexivity. Qed.
